@@ -5,6 +5,7 @@
 //! resp: u | n<dec> | b<hex> | e<k> | p      arg: - | n<dec> | b<hex> | p<a>,<b>
 
 mod drivers;
+mod extras;
 #[allow(unused, non_snake_case, clippy::all)]
 mod gen;
 mod script;
@@ -137,7 +138,25 @@ fn main() {
     for line in input.lines() {
         let line = line.expect("read");
         let mut t = line.split_whitespace();
-        if t.next() != Some("case") {
+        let head = t.next();
+        if head == Some("xcase") {
+            let id = t.next().unwrap().to_string();
+            let partial = t.next().unwrap() == "partial";
+            assert_eq!(t.next(), Some("T"));
+            let tag: u8 = t.next().unwrap().parse().unwrap();
+            assert_eq!(t.next(), Some("P"));
+            let n: usize = t.next().unwrap().parse().unwrap();
+            let accepted: Vec<usize> = (0..n).map(|_| t.next().unwrap().parse().unwrap()).collect();
+            assert_eq!(t.next(), Some("O"));
+            let n: usize = t.next().unwrap().parse().unwrap();
+            let ops: Vec<String> = (0..n).map(|_| t.next().unwrap().to_string()).collect();
+            writeln!(out, "case {id}").unwrap();
+            extras::run_xcase(partial, tag, &accepted, &ops, &mut out);
+            writeln!(out, "--").unwrap();
+            out.flush().unwrap();
+            continue;
+        }
+        if head != Some("case") {
             continue;
         }
         let id = t.next().unwrap().to_string();
